@@ -67,6 +67,7 @@ unsigned verif_max_acq(void);      /* largest number of acquisitions of one lock
 extern bool verif_tags_armed;      /* glib model: container lock tags are checked only while armed (VERIF_LOCK_TAGS) */
 bool verif_held(int id);           /* any hold */
 bool verif_held_w(int id);         /* write/mutex hold */
+void verif_rmw_mark(void); void verif_rmw_check(void); void verif_rmw_reset(void);   /* read-modify-write atomicity (pthread_model.c) */
 void verif_locks_reset(void);
 /* schedule hook: called by the pthread model *before* acquiring lock id (if -DVERIF_YIELD) */
 void verif_yield(int id);
